@@ -37,7 +37,7 @@ CLAIMED = {
    text=('Decides that no call site of a function that may return the cancellation error drops, converts or stores that Result: every site is '
          'classified (?, tail, inspected-with-Err-propagating arm, or converted) and converted sites are reported; Context::check_progress returns only '
          'Ok or Err(OperationCancelled) under the documented guards; literal progress arguments satisfy 1 <= step <= total.'),
-   note='Undecided: progress values computed in loops (positive/increasing). Closures whose `?` returns into std adaptors are assumed to be propagated by the adaptor. Trusted base: ' + TRUSTED,
+   note='For the chunked hashing loop the announced total is checked to be the ceiling of range length / chunk size with the loop\'s own chunk bound; other progress values computed in loops (positive/increasing) are undecided. Closures whose `?` returns into std adaptors are assumed to be propagated by the adaptor. Trusted base: ' + TRUSTED,
    design='5/C23'),
  'C28': dict(
    technique='who-may-call tables over the resolved call graph + MIR guarded-effect dominance on every call into a network sink',
